@@ -478,6 +478,7 @@ int run_special(World &w, const Plan &p, const std::string &dir) {
     const Swarm &s = p.swarm;
     clock_enable(true); clock_set(s.t0);
     h5knob_set(s.cache_mode, s.sieve_mode);
+    { unsigned t = (unsigned) ((s.entropy >> 32) % 8); h5knob_tbuf(t == 0 ? 0 : (t < 5 ? 1 : 2)); }
     std::vector<Child> kids;
     uint64_t ent = s.entropy;
     auto spawn = [&](int index) {
